@@ -402,7 +402,7 @@ def run_scenario(sc):
             if nontriv and k not in seen:
                 seen.add(k)
                 out["nontrivial"] += 1
-                if out["sample"] is None:
+                if out["sample"] is None and sc["id"] % 997 == 0:       # a deterministic, sparse selection of written-out cases
                     out["sample"] = dict(contract=contract, history=[list(h) for h in hist], box_family=sc["fam"], n_boxes=n,
                                          query=q.tolist(), query_kind=kind,
                                          n_expected=int(overlap_mask(rec.arr(), q).sum()))
@@ -529,11 +529,6 @@ def _compress(r, sent):
             sent.add(k)
             agg[k] = [1, d, i]
     r["fails"] = [(k[0], k[1], v[0], v[1], v[2]) for k, v in agg.items()]
-    if r.get("sample") is not None:
-        if "sample" in sent and r["sample"]["n_boxes"] < 4:
-            r["sample"] = None
-        else:
-            sent.add("sample")
     return r
 
 
@@ -552,17 +547,31 @@ def _child(conn, fn, tasks):
         os._exit(0)
 
 
-def run_guarded(chunks, jobs, deadline):
-    """chunks: list of (fn, [tasks], per_task_timeout).  Forked workers stream one result per task.  Returns
-    (results list of (task, result), incidents list of (task, 'hang'|'crash', info), skipped tasks)"""
+def run_guarded(chunks, jobs, deadline, on_result=None):
+    """chunks: iterable of (fn, [tasks], per_task_timeout).  Forked workers stream one result per task.  Returns
+    (results list of (task, result) [empty if on_result is given], incidents list of (task, 'hang'|'crash', info), #skipped)"""
     import multiprocessing as mp
     ctx = mp.get_context("fork")
-    queue = list(chunks)[::-1]
+    it = iter(chunks)
+    requeue = []
+    state = dict(exhausted=False)
     running = {}            # conn -> dict(proc, fn, tasks, pos, t_last, timeout)
-    results, incidents, skipped = [], [], []
+    results, incidents = [], []
+    skipped = 0
 
-    def spawn():
-        fn, tasks, tmo = queue.pop()
+    def next_chunk():
+        if requeue:
+            return requeue.pop()
+        if state["exhausted"]:
+            return None
+        try:
+            return next(it)
+        except StopIteration:
+            state["exhausted"] = True
+            return None
+
+    def spawn(ch):
+        fn, tasks, tmo = ch
         r, w = ctx.Pipe(duplex=False)
         p = ctx.Process(target=_child, args=(w, fn, tasks))
         p.daemon = True
@@ -577,7 +586,7 @@ def run_guarded(chunks, jobs, deadline):
             incidents.append((tasks[st["pos"]], kind, info))
             rest = tasks[st["pos"] + 1:]
             if rest:
-                queue.append((st["fn"], rest, st["timeout"]))
+                requeue.append((st["fn"], rest, st["timeout"]))
         try:
             st["proc"].kill()
         except Exception:                                                # noqa
@@ -586,19 +595,27 @@ def run_guarded(chunks, jobs, deadline):
         conn.close()
         del running[conn]
 
-    while queue or running:
+    while True:
         if time.time() > deadline:
             for conn, st in list(running.items()):
-                skipped.extend(st["tasks"][st["pos"]:])
+                skipped += len(st["tasks"]) - st["pos"]
                 st["proc"].kill()
                 st["proc"].join(5)
                 conn.close()
                 del running[conn]
-            for fn, tasks, tmo in queue:
-                skipped.extend(tasks)
+            while True:
+                ch = next_chunk()
+                if ch is None:
+                    break
+                skipped += len(ch[1])
             break
-        while queue and len(running) < jobs:
-            spawn()
+        while len(running) < jobs:
+            ch = next_chunk()
+            if ch is None:
+                break
+            spawn(ch)
+        if not running:
+            break
         ready = mpc.wait(list(running.keys()), timeout=0.25)
         for conn in ready:
             st = running.get(conn)
@@ -612,7 +629,10 @@ def run_guarded(chunks, jobs, deadline):
                         conn.close()
                         del running[conn]
                         break
-                    results.append((st["tasks"][st["pos"]], msg))
+                    if on_result is None:
+                        results.append((st["tasks"][st["pos"]], msg))
+                    else:
+                        on_result(st["tasks"][st["pos"]], msg)
                     st["pos"] += 1
                     st["t_last"] = time.time()
             except (EOFError, OSError):
@@ -659,41 +679,52 @@ def main():
     import distance3d
     repo_file = distance3d.__file__
 
-    # ---- enumerate histories
+    # ---- enumerate histories (lazily: the scenario list of the thorough tier would not fit comfortably in memory)
     opts = options((0, 1, 2, 3, 5))
-    hists = [()]
-    for L in (1, 2, 3):
-        hists += list(itertools.product(opts, repeat=L))
-    n_base = len(hists)
     big_opts = options((4, 8, 13, 21))[:-2]
-    extra = []
-    if thorough:
-        for L in (1, 2, 3):
-            extra += list(itertools.product(big_opts, repeat=L))
-        small = options((0, 1, 3))[:-1]                                  # 19 options, length 4
-        extra4 = list(itertools.product(small, repeat=4))
-    else:
-        for L in (1, 2):
-            extra += list(itertools.product(big_opts, repeat=L))
-        extra4 = []
-    scenarios, empties = [], []
-    sid = 0
+    small = options((0, 1, 3))[:-1]                                      # 19 call kinds, used for length 4
     fams_per = len(FAMILIES) if thorough else 2
     nq = 14 if thorough else 10
+
+    def history_groups():
+        yield "base", itertools.chain([()], *[itertools.product(opts, repeat=L) for L in (1, 2, 3)])
+        yield "big", itertools.chain(*[itertools.product(big_opts, repeat=L) for L in ((1, 2, 3) if thorough else (1, 2))])
+        if thorough:
+            yield "len4", itertools.product(small, repeat=4)
+
+    stats = dict(hist=0, scen=0, maxbox=0)
     empty_hists = []
-    for hi, h in enumerate(hists + extra + extra4):
-        if family_of(h) == "empty":
-            empty_hists.append(h)
-            continue
-        if hi < n_base:
-            fams = [FAMILIES[(hi * fams_per + k) % len(FAMILIES)] for k in range(fams_per)]
-        elif hi < n_base + len(extra):
-            fams = [FAMILIES[(hi + k * 3) % len(FAMILIES)] for k in range(2)]
-        else:
-            fams = [FAMILIES[hi % len(FAMILIES)]]
-        for fam in fams:
-            scenarios.append(dict(id=sid, history=h, fam=fam, seed=a.seed, nq=nq if hi < n_base + len(extra) else 10))
-            sid += 1
+
+    def scenario_iter(count_only=False):
+        sid = hi = 0
+        for group, hs in history_groups():
+            for h in hs:
+                hi += 1
+                if family_of(h) == "empty":
+                    if count_only:
+                        empty_hists.append(h)
+                    continue
+                if group == "base":
+                    nf = fams_per if (thorough or len(h) <= 2) else 1      # quick: 2 families up to 2 calls, 1 for 3 calls
+                    fams = [FAMILIES[(hi * nf + k) % len(FAMILIES)] for k in range(nf)]
+                elif group == "big":
+                    fams = [FAMILIES[(hi + k * 3) % len(FAMILIES)] for k in range(2)]
+                else:
+                    fams = [FAMILIES[hi % len(FAMILIES)]]
+                if count_only:
+                    stats["hist"] += 1
+                    stats["scen"] += len(fams)
+                    stats["maxbox"] = max(stats["maxbox"], sum(c[1] for c in h))
+                    sid += len(fams)
+                    continue
+                for fam in fams:
+                    yield dict(id=sid, history=h, fam=fam, seed=a.seed, nq=nq if group != "len4" else 10)
+                    sid += 1
+
+    for _ in scenario_iter(count_only=True):
+        pass
+    sid = stats["scen"]
+    empties = []
     # ---- family `empty`: a bounded selection (each may cost a full watchdog timeout)
     empty_hists.sort(key=lambda h: (len(h), h))
     sel = [h for h in empty_hists if len(h) <= 1]
@@ -725,13 +756,10 @@ def main():
         except Exception:               # noqa
             warm_ok = False
     empty_timeout = 6.0 if warm_ok else 60.0
-    chunk_n = 400 if thorough else 150
-    chunks = [(run_empty, [e], empty_timeout) for e in empties]
-    chunks += [(run_scenario, scenarios[i:i + chunk_n], 30.0) for i in range(0, len(scenarios), chunk_n)]
-    results, incidents, skipped = run_guarded(chunks, a.jobs, deadline)
+    chunk_n = 400 if thorough else 250
 
-    # ---- merge (deterministic: example with the smallest scenario id per (contract, obligation))
-    evals = nontriv = 0
+    # ---- merge on the fly (deterministic: example with the smallest scenario id per (contract, obligation))
+    tot = dict(evals=0, nontriv=0)
     agg = {}
     samples = []
     harness_errors = []
@@ -747,15 +775,30 @@ def main():
             if inp is not None and sidx < cur[1]:
                 cur[1:] = [sidx, detail, inp]
 
-    for task, r in results:
-        evals += r["evals"]
-        nontriv += r["nontrivial"]
-        if r.get("harness_error"):
+    def on_result(task, r):
+        tot["evals"] += r["evals"]
+        tot["nontriv"] += r["nontrivial"]
+        if r.get("harness_error") and len(harness_errors) < 20:
             harness_errors.append(dict(task=task.get("id"), error=r["harness_error"]))
         for (c, o, n_, d, i) in r["fails"]:
             add(c, o, d, i, n_)
         if r.get("sample") is not None and len(samples) < 4000:
             samples.append((task["id"], r["sample"]))
+
+    def chunk_iter():
+        for e in empties:
+            yield (run_empty, [e], empty_timeout)
+        buf = []
+        for sc in scenario_iter():
+            buf.append(sc)
+            if len(buf) >= chunk_n:
+                yield (run_scenario, buf, 30.0)
+                buf = []
+        if buf:
+            yield (run_scenario, buf, 30.0)
+
+    _, incidents, skipped = run_guarded(chunk_iter(), a.jobs, deadline, on_result)
+    evals, nontriv = tot["evals"], tot["nontriv"]
     if not warm_ok:
         extra_note = "warm-up (insert 4 boxes in each mode, query) failed: %s" % (
             (warm_res[0][1].get("error") if warm_res else None) or (warm_inc[0][1:] if warm_inc else "?"),)
@@ -797,20 +840,20 @@ def main():
         failures.append(dict(contract=c, obligation=o, detail="%s  [%d case(s) of this kind]" % (detail, cnt), input=inp))
     samples.sort(key=lambda s: s[0])
     pick = [s[1] for s in samples[:: max(1, len(samples) // 8)]][:8]
-    n_hist = len({tuple(map(tuple, s["history"])) for s in scenarios}) + len(sel)
+    n_hist = stats["hist"] + len(sel)
     domain = ("insertion histories: all sequences of <=3 calls over 32 call kinds (insert_aabbs sizes {0,1,2,3,5} x modes none/sort/shuffle x "
               "external data yes/no, insert_aabb with / without datum)%s; %d histories, %d scenarios = history x box family "
-              "(%s; %d famil%s per history, <= %d boxes) each with %d box queries (all / far / hull / face-, edge-, corner-touching / identical / "
+              "(%s; %d famil%s per history%s, <= %d boxes) each with %d box queries (all / far / hull / face-, edge-, corner-touching / identical / "
               "point / slab / random / one-ulp near miss / inside), 3 tree-vs-tree queries against single-batch trees (1, 4, 3 boxes, one corner-touching), "
               "self-vs-self and get_root_aabb; family empty (no inserted box): %d histories x %s, JIT (guarded, %d rep) + interpreted; "
               "repo %s") % (
         "; + sequences of <=%d calls with sizes {4,8,13,21}%s" % (3 if thorough else 2, "; + all sequences of 4 calls over 19 call kinds (sizes {0,1,3}, insert_aabb with datum)" if thorough else ""),
-        n_hist, len(scenarios), ",".join(FAMILIES), fams_per, "ies" if fams_per > 1 else "y",
-        max([sum(h[1] for h in s["history"]) for s in scenarios] + [0]), nq + 3, len(sel), "/".join(EMPTY_VARIANTS), reps, repo_file)
+        n_hist, stats["scen"], ",".join(FAMILIES), fams_per, "ies" if fams_per > 1 else "y", "" if thorough else " (1 for histories of 3 calls)",
+        stats["maxbox"], nq + 3, len(sel), "/".join(EMPTY_VARIANTS), reps, repo_file)
     rule = ("non-trivial = the oracle's answer set is neither empty nor everything (box query: 0 < #overlapping < #inserted; tree query: 0 < #pairs < "
             "#A*#B); distinct by (scenario = history x box family, query bytes)")
-    extra_out = dict(failure_counts={"%s :: %s" % k: v[0] for k, v in sorted(agg.items())}, scenarios=len(scenarios) + len(empties),
-                     skipped_for_time=len(skipped), undecided=0)
+    extra_out = dict(failure_counts={"%s :: %s" % k: v[0] for k, v in sorted(agg.items())}, scenarios=stats["scen"] + len(empties),
+                     skipped_for_time=skipped, undecided=0)
     if harness_errors:
         extra_out["harness_errors"] = harness_errors[:5]
     if interp_note or extra_note:
